@@ -40,6 +40,24 @@ def tab_doc(rng) -> str:
     return "\n".join(lines) + ("\n" if rng.random() < 0.8 else "")
 
 
+def ol_doc(rng) -> str:
+    """ordered lists (multi-digit numbers, both delimiters) whose later items are indented with spaces, tabs and
+    mixtures, at top level and inside a bullet item / block quote / ordered item"""
+    outer = rng.choice(["", "", "- ", "> ", "1. ", ">\t", "-   ", "> - "])
+    cont = {"": "", "- ": rng.choice(["  ", "\t", " \t"]), "> ": rng.choice(["> ", ">\t", ">"]), "1. ": rng.choice(["   ", "\t"]),
+            ">\t": rng.choice([">\t", "> "]), "-   ": rng.choice(["    ", "\t"]), "> - ": rng.choice([">   ", ">\t", "> \t"])}[outer]
+    d = rng.choice(".)")
+    n = rng.choice([0, 1, 7, 10, 99, 12345, 123456789, 3])
+    lines = [outer + f"{n}{d} a"]
+    for _ in range(rng.randint(1, 4)):
+        n = n + 1 if rng.random() < 0.6 else rng.choice([2, 5, 40, 98765, 0])
+        ind = rng.choice(["", "", " ", "  ", "\t", " \t", "   "]) if cont or True else ""
+        if rng.random() < 0.15:
+            lines.append(cont.rstrip(" "))
+        lines.append(cont + ind + f"{n}{d}" + rng.choice([" b", "\tb", "", "  c"]))
+    return "\n".join(lines) + "\n"
+
+
 SPAN_RE = re.compile(r"^(?P<pre>[^`\\\[<&*_!]*)(?P<m>`+)(?P<inner>[^`]+)(?P=m)(?P<post>[^`\\\[<&*_!]*)$", re.S)
 
 
@@ -114,9 +132,11 @@ def check(md, src):
             m = re.search(r"(\d{1,9})[.)]", sl)
             if "start" in t.attrs and (not m or int(m.group(1)) != t.attrs["start"]) and not re.search(r"(?<!\d)0*%d[.)]" % t.attrs["start"], sl):
                 return ("list-start", t.attrs.get("start"), sl)
-        if t.type == "list_item_open" and t.info:
+        if t.type == "list_item_open" and (t.info or t.markup in (".", ")")):
             sl = lines[t.map[0]] if t.map else ""
-            if t.info not in sl or not t.info.isdigit():
+            # the digits written: a digit run of the line's marker prefix directly followed by the item's delimiter
+            cands = re.findall(r"(?<!\d)(\d{1,9})" + re.escape(t.markup) + r"(?=[ \t]|$)", sl) if t.markup in (".", ")") else []
+            if t.info not in cands:
                 return ("list-info", t.info, sl)
         if t.type in ("bullet_list_open", "list_item_open", "ordered_list_open", "blockquote_open") and t.map:
             if t.markup and t.markup not in lines[t.map[0]]:
@@ -193,7 +213,7 @@ def run(ctx: Ctx) -> None:
     tr.install(tmd)
     try:
         for i in range(n):
-            src = tab_doc(rng) if i % 2 == 0 else next(gens.doc_stream(rng, 1, 7))
+            src = tab_doc(rng) if i % 2 == 0 else (ol_doc(rng) if i % 7 == 1 else next(gens.doc_stream(rng, 1, 7)))
             md, cfg = mds[i % len(mds)]
             try:
                 e = check(md, src)
@@ -266,7 +286,7 @@ def search(ctx: Ctx):
     c = Ctx(ctx.pid, "quick", ctx.seed + 19)
     mds = [(gens.make_md(cf), cf) for cf in (gens.FIXED_CFGS[0], gens.FIXED_CFGS[1])]
     for i in range(20000):
-        src = tab_doc(c.rng)
+        src = tab_doc(c.rng) if i % 3 else ol_doc(c.rng)
         for md, cfg in mds:
             try:
                 e = check(md, src)
